@@ -29,4 +29,7 @@ def scenarios(ctx):
         # transfers of tens to hundreds of fragments over a fast clean link at normal pacing (several seconds on the wire each): nothing may give up half way
         dict(name="large-transfers", n=2 if q else 8, nticks=1300 if q else 3000, heal_after=1000 if q else 2600, quiesce=1200,
              policy=dict(p_send=0.0035, p_loss=0.0, p_dup=0.0, p_replay=0.0, maxdelay=1, retries=(-1, 0, 1), lens=[70000, 150000, 262000, 40]), world=dict(start_seq="alt")),
+        # the same over a link whose round trip is shorter than a frame (the application polls four times per frame, nothing is delayed)
+        dict(name="large-transfers-fast-link", n=3 if q else 10, nticks=5200 if q else 9000, heal_after=4000 if q else 7600, quiesce=2400,
+             policy=dict(p_send=0.0009, p_loss=0.0, p_dup=0.0, p_replay=0.0, maxdelay=0, retries=(-1, 0, 1), lens=[70000, 150000, 262000, 40]), world=dict(start_seq="alt", tick_us=4100)),
     ]
